@@ -43,6 +43,7 @@ def main():
     subprocess.run(["git", "-C", "/repo", "worktree", "add", "-q", wt, "HEAD"], check=True)
     subprocess.run(["git", "-C", wt, "apply", os.path.join(sd, "patch.diff")], check=True)
     shutil.copy("/repo/Cargo.lock", os.path.join(wt, "Cargo.lock"))  # untracked in the repository
+    meta.pop("my_checks", None)
     broot = os.path.join(VERIF, "build", "mut", name)
     shutil.rmtree(broot, ignore_errors=True)
     os.makedirs(broot)
